@@ -146,6 +146,52 @@ void drv_alias(int tier, unsigned long seed, const char *extra) {
   }
 }
 
+/* corners_all: EVERY mpz function of the table on corner-alphabet operands (limbs from {0, 1, 2^63, 2^64-1}, 1..3 limbs, both signs).  Each mpz input position
+   in turn runs through all 84 x 2 operands while the other inputs hold a seeded corner operand (functions with one mpz input: the full enumeration); scalars
+   from the boundary tables; destinations distinct and exactly allocated.  This carries the "corner contents" idea of corners_z (15 two-operand functions, all
+   pairs) to the whole API: single-limb shortcuts that look only at the low or the high limb, carries through all-ones limbs, zero low limbs. */
+static const mp_limb_t CAL[4] = {0, 1, (mp_limb_t)1 << 63, ~(mp_limb_t)0};
+static int corner_op(long k, mp_limb_t *out) {      /* k in 0..83 -> 1..3 limbs, top limb non-zero */
+  int l; long cnt;
+  for (l = 1; l <= 3; l++) { int i; cnt = 3; for (i = 1; i < l; i++) cnt *= 4;
+    if (k < cnt) { long t = k; out[l - 1] = CAL[1 + t % 3]; t /= 3; for (i = l - 2; i >= 0; i--) { out[i] = CAL[t % 4]; t /= 4; } return l; }
+    k -= cnt; }
+  return 0;
+}
+static void set_corner(int v, long k, int neg) { mp_limb_t b[4]; int n = corner_op(k, b); char *h = hex_of_limbs(b, n, neg); callf("drv_setz", v, h); free(h); }
+void drv_corners_all(int tier, unsigned long seed, const char *extra) {
+  shard_t sh = shard_parse(extra); long x = 0; int fi;
+  for (fi = 0; fi < api_count; fi++) {
+    const api_fn *f = &api_table[fi]; int zin[8], nin = 0, i, pi; 
+    if (skip_generic(f) || !want(&sh, f->name) || !strcmp(f->name, "mpz_swap")) continue;
+    for (i = 0; i < f->nargs; i++) if (is_z(f->kinds[i]) && is_in(f->kinds[i])) zin[nin++] = i;
+    if (nin == 0) continue;
+    for (pi = 0; pi < nin; pi++) { long k0;
+      for (k0 = 0; k0 < 84; k0 += 12) { long k;
+        x++; if (!MINE(sh, x)) continue;
+        if (sh.pure && (k0 || pi)) continue;
+        rec_reset("corners_all", x, seed);
+        for (i = 0; i < 8; i++) callf("mpz_init", i);
+        for (k = k0; k < k0 + 12 && k < 84; k++) { int neg;
+          for (neg = 0; neg < 2; neg++) { arg_t a[8]; int var[8], nv = 0;
+            if (!tier && nin > 1 && neg != (int)((k + pi) & 1)) continue;           /* quick: alternate signs for multi-input functions */
+            memset(a, 0, sizeof a);
+            for (i = 0; i < f->nargs; i++) { a[i].kind = f->kinds[i]; var[i] = 0;
+              if (is_z(f->kinds[i])) { var[i] = nv++;      /* all distinct */
+                if (is_in(f->kinds[i])) { if (i == zin[pi]) set_corner(var[i], k, neg); else set_corner(var[i], (long)rnd_below(84), (int)rnd_below(2)); }
+                else callf("drv_rndz", var[i], (int)rnd_below(3), 0, (int)rnd_below(2)); }
+              else switch (f->kinds[i]) { case K_U: a[i].u = gen_u(f->name, i, 0); break; case K_S: a[i].s = SIS[rnd_below(11)]; break;
+                case K_B: a[i].u = gen_b(f->name); break; case K_I: a[i].s = has(f->name, "sizeinbase") ? 2 + (int)rnd_below(61) : (int)rnd_below(30); break;
+                case K_D: a[i].d = DS[rnd_below(11)]; break; default: break; } }
+            fixups(f, var, a);
+            for (i = 0; i < f->nargs; i++) if (is_z(f->kinds[i]) && !is_in(f->kinds[i])) exact_alloc(var[i]);
+            call_bound(f, var, a); } }
+        for (i = 0; i < 8; i++) callf("mpz_clear", i);
+        rec_quiesce();
+      } }
+  }
+}
+
 /* random histories: C04.  Every destination is shrunk to the smallest legal allocation before the call with probability 1/2,
    sources are re-allocated larger or smaller (never below their size), variables are cleared and re-initialised, swapped. */
 void drv_hist(int tier, unsigned long seed, const char *extra) {
